@@ -181,6 +181,20 @@ type NSpec struct {
 	Fail int     `json:"fail"` // 0 none, 1 call time, 2 error item mid-stream
 	Live bool    `json:"live"` // T native forwards chunk by chunk
 	Pipe int     `json:"pipe"` // 0 array-backed output, n>0 Pipe of capacity n-1 fed by a goroutine
+	// AnyOut: the lambda's static output type is any (interface); the values stay strings / maps.
+	// Its outgoing edges then carry a run-time type check of the type the consumers were
+	// declared with: AnyMap (map[string]any) or string. AnyMap != outMap() is a deliberate
+	// dynamic type error.
+	AnyOut bool `json:"anyout,omitempty"`
+	AnyMap bool `json:"anymap,omitempty"`
+}
+
+// the type the consumers of the node see
+func (sp *NSpec) seenOutMap() bool {
+	if sp.AnyOut {
+		return sp.AnyMap
+	}
+	return sp.outMap()
 }
 
 func (sp *NSpec) tag() string { return fmt.Sprintf("n%d", sp.ID) }
@@ -472,6 +486,12 @@ func mkLambdaT[I, O any](sp *NSpec, rec *recorder) *compose.Lambda {
 }
 
 func mkLambda(sp *NSpec, rec *recorder) *compose.Lambda {
+	if sp.AnyOut {
+		if sp.inMap() {
+			return mkLambdaT[map[string]any, any](sp, rec)
+		}
+		return mkLambdaT[string, any](sp, rec)
+	}
 	switch sp.Kind {
 	case 0:
 		return mkLambdaT[string, string](sp, rec)
